@@ -91,6 +91,13 @@ class C19(Property):
                 for tail in tails:
                     w = [1] * k + comp + [1] * tail
                     res.append(("exhaustive", "D S1 T5:%s F" % self.text_of(w)))
+        # characters that <str as Debug> escapes (quote, backslash, newline, tab), at every position of the kept prefix
+        for esc in (34, 92, 10, 9):
+            for pos in range(0, 26):
+                for total in ((26, 30) if tier == "quick" else (25, 26, 30, 40)):
+                    if pos < total:
+                        w = [97] * pos + [esc] + [97] * (total - pos - 1)
+                        res.append(("exhaustive", "D S1 T5:%s F" % ".".join(str(c) for c in w)))
         for n in range(0, 25):                      # short texts: every length, a few width mixes
             for comp in list(compositions(n))[:40]:
                 res.append(("exhaustive", "D S1 T5:%s F" % self.text_of(comp)))
